@@ -5,33 +5,9 @@
   copy consists of new objects only, has the value of its source, and later copies are disjoint
   from earlier ones; the pointer index and the families cache stay coherent.
 -/
-import Gedcom.Lemmas.CopyDoc
+import Gedcom.Lemmas.FilterDoc
 import Gedcom.Lemmas.Equal
 namespace Gedcom
-
-theorem idsList_append (a b : List INode) : idsList (a ++ b) = idsList a ++ idsList b := by
-  induction a with
-  | nil => simp [idsList]
-  | cons x xs ih => simp [idsList, ih]
-
-theorem ids_of_leaf {x : INode} (h : x.kids = []) : x.ids = [x.id] := by
-  cases x with
-  | mk i t v p ks =>
-    simp only [INode.kids] at h
-    subst h
-    simp [INode.ids, idsList, INode.id]
-
-theorem addFamilies_spec (d : DocSt) (nx : Nat) (ps : List Str) :
-    (d.addFamilies nx ps).1.nodes = d.nodes ++ (newFams nx ps).1 ∧
-    (d.addFamilies nx ps).2 = (newFams nx ps).2 := by
-  induction ps generalizing d nx with
-  | nil => simp [DocSt.addFamilies, newFams]
-  | cons p ps ih =>
-    obtain ⟨h1, h2⟩ := ih (d.addFamily nx p) (nx + 1)
-    simp only [DocSt.addFamilies, newFams]
-    refine ⟨?_, h2⟩
-    rw [h1]
-    simp [DocSt.addFamily, DocSt.addNode]
 
 /-! ### growth -/
 
@@ -90,7 +66,7 @@ structure EventOK (w w' : World) (op : CopyOp) (e : CopyEvent) : Prop where
   op_eq : e.op = op
   start_eq : e.start = w.next
   next_eq : e.result.next = w'.next
-  value : e.result.copy.erase = e.source.erase
+  value : pruneNode op.keep e.source.erase = some e.result.copy.erase
   fresh : ∀ i ∈ e.result.copy.ids, w.next ≤ i ∧ i < w'.next
   writes : ∀ i ∈ e.result.writes, w.next ≤ i ∧ i < w'.next
   src : ∃ s r0, w.docs[op.src]? = some s ∧ findRec op.node s.nodes = some (r0, e.source) ∧
@@ -114,81 +90,140 @@ theorem step_spec (w : World) (op : CopyOp) (hb : w.Below) :
     · exact triv
     · rename_i r t hf
       split
-      · exact triv
-      · rename_i c nx wr adds hc
-        have hcopy : c = (copyTree w.next t).1 ∧ nx = (copyTree w.next t).2.1 ∧
-            wr = (copyTree w.next t).2.2 := by
-          unfold deepCopyIn at hc
-          split at hc
-          · cases hc
-          · injection hc with h1 h2 h3; exact ⟨h1.symm, h2.symm, h3.symm⟩
-        obtain ⟨hc1, hc2, hc3⟩ := hcopy
-        obtain ⟨i1, i2, i3⟩ := copyTree_ids w.next t
-        rw [← hc1, ← hc2] at i2
-        rw [← hc3, ← hc2] at i3
-        rw [← hc2] at i1
-        obtain ⟨a1, a2⟩ := addFamilies_spec d nx adds
-        obtain ⟨f1, f2, f3, f4⟩ := newFams_spec nx adds
-        have hnext : (d.addFamilies nx adds).2 = nx + adds.length := by rw [a2, f1]
-        have hfam : ∀ x ∈ (newFams nx adds).1, x.tag = tagFAM ∧ x.value = [] ∧ x.kids = [] ∧
-            nx ≤ x.id ∧ x.id < nx + adds.length := by
-          intro x hx
-          have hid : x.id ∈ List.range' nx adds.length := f3 ▸ List.mem_map_of_mem (f := (·.id)) hx
-          have := List.mem_range'_1.mp hid
-          obtain ⟨p1, p2, p3⟩ := f4 x hx
-          exact ⟨p1, p2, p3, this.1, this.2⟩
+      · rename_i hfil
+        split
+        · exact triv
+        · rename_i c nx wr adds hc
+          have hcopy : c = (copyTree w.next t).1 ∧ nx = (copyTree w.next t).2.1 ∧
+              wr = (copyTree w.next t).2.2 := by
+            unfold deepCopyIn at hc
+            split at hc
+            · cases hc
+            · injection hc with h1 h2 h3; exact ⟨h1.symm, h2.symm, h3.symm⟩
+          obtain ⟨hc1, hc2, hc3⟩ := hcopy
+          obtain ⟨i1, i2, i3⟩ := copyTree_ids w.next t
+          rw [← hc1, ← hc2] at i2
+          rw [← hc3, ← hc2] at i3
+          rw [← hc2] at i1
+          obtain ⟨a1, a2⟩ := addFamilies_spec d nx adds
+          obtain ⟨f1, f2, f3, f4⟩ := newFams_spec nx adds
+          have hnext : (d.addFamilies nx adds).2 = nx + adds.length := by rw [a2, f1]
+          have hfam : ∀ x ∈ (newFams nx adds).1, x.tag = tagFAM ∧ x.value = [] ∧ x.kids = [] ∧
+              nx ≤ x.id ∧ x.id < nx + adds.length := by
+            intro x hx
+            have hid : x.id ∈ List.range' nx adds.length := f3 ▸ List.mem_map_of_mem (f := (·.id)) hx
+            have := List.mem_range'_1.mp hid
+            obtain ⟨p1, p2, p3⟩ := f4 x hx
+            exact ⟨p1, p2, p3, this.1, this.2⟩
+          have hdlt : op.dst < w.docs.length := by
+            rcases Nat.lt_or_ge op.dst w.docs.length with h | h
+            · exact h
+            · rw [List.getElem?_eq_none h] at hd; cases hd
+          have hgrow : DocGrows w.next (nx + adds.length) d (d.addFamilies nx adds).1 :=
+            ⟨(newFams nx adds).1, a1, fun x hx => by
+              obtain ⟨p1, p2, p3, p4, p5⟩ := hfam x hx; exact ⟨p1, p2, p3, by omega, p5⟩⟩
+          have hbelow' : ∀ d' ∈ w.docs.set op.dst (d.addFamilies nx adds).1,
+              ∀ i ∈ idsList d'.nodes, (i < w.next ∨ (nx ≤ i ∧ i < nx + adds.length)) := by
+            intro d' hd' i hi
+            rcases List.mem_or_eq_of_mem_set hd' with hm | rfl
+            · exact Or.inl (hb d' hm i hi)
+            · rw [a1, idsList_append] at hi
+              rcases List.mem_append.mp hi with hi | hi
+              · exact Or.inl (hb d (List.mem_of_getElem? hd) i hi)
+              · obtain ⟨x, hx, hix⟩ := idsList_mem.mp hi
+                obtain ⟨_, _, p3, p4, p5⟩ := hfam x hx
+                rw [ids_of_leaf p3] at hix
+                simp at hix
+                subst hix
+                exact Or.inr ⟨p4, p5⟩
+          dsimp only
+          refine ⟨?_, ?_, ?_, ?_, ?_⟩
+          · intro d' hd' i hi
+            simp only [hnext]
+            rcases hbelow' d' hd' i hi with h | h <;> omega
+          · refine ⟨by simp only [hnext]; omega, by simp, ?_⟩
+            intro k d0 hk
+            simp only [hnext]
+            by_cases hkd : op.dst = k
+            · subst hkd
+              rw [hd] at hk
+              injection hk with hk
+              subst hk
+              exact ⟨_, by simp [hdlt], hgrow⟩
+            · refine ⟨d0, by simp [hkd, hk], ?_⟩
+              exact DocGrows.refl _ _ _
+          · intro k hk
+            simp [Ne.symm hk]
+          · intro h; cases h
+          · intro e he
+            injection he with he
+            subst he
+            refine ⟨rfl, rfl, rfl, ?_, ?_, ?_, ⟨s, r, hs, hf, rfl⟩, ?_, ?_⟩
+            · simp only [CopyOp.keep, hfil]; rw [hc1, copyTree_erase]; exact pruneNode_all _
+            · intro i hi; simp only at hi ⊢; have := i2 i hi; rw [hnext]; omega
+            · intro i hi; simp only at hi ⊢; have := i3 i hi; rw [hnext]; omega
+            · exact ⟨_, by simp [hdlt], rfl⟩
+            · intro d' hd' i hi hm
+              simp only at hi hd'
+              have := i2 i hi
+              rcases hbelow' d' hd' i hm with h | h <;> omega
+      · rename_i white tags hfil
         have hdlt : op.dst < w.docs.length := by
           rcases Nat.lt_or_ge op.dst w.docs.length with h | h
           · exact h
           · rw [List.getElem?_eq_none h] at hd; cases hd
-        have hgrow : DocGrows w.next (nx + adds.length) d (d.addFamilies nx adds).1 :=
-          ⟨(newFams nx adds).1, a1, fun x hx => by
-            obtain ⟨p1, p2, p3, p4, p5⟩ := hfam x hx; exact ⟨p1, p2, p3, by omega, p5⟩⟩
-        have hbelow' : ∀ d' ∈ w.docs.set op.dst (d.addFamilies nx adds).1,
-            ∀ i ∈ idsList d'.nodes, (i < w.next ∨ (nx ≤ i ∧ i < nx + adds.length)) := by
-          intro d' hd' i hi
-          rcases List.mem_or_eq_of_mem_set hd' with hm | rfl
-          · exact Or.inl (hb d' hm i hi)
-          · rw [a1, idsList_append] at hi
-            rcases List.mem_append.mp hi with hi | hi
-            · exact Or.inl (hb d (List.mem_of_getElem? hd) i hi)
-            · obtain ⟨x, hx, hix⟩ := idsList_mem.mp hi
-              obtain ⟨_, _, p3, p4, p5⟩ := hfam x hx
-              rw [ids_of_leaf p3] at hix
-              simp at hix
-              subst hix
-              exact Or.inr ⟨p4, p5⟩
-        dsimp only
-        refine ⟨?_, ?_, ?_, ?_, ?_⟩
-        · intro d' hd' i hi
-          simp only [hnext]
-          rcases hbelow' d' hd' i hi with h | h <;> omega
-        · refine ⟨by simp only [hnext]; omega, by simp, ?_⟩
-          intro k d0 hk
-          simp only [hnext]
-          by_cases hkd : op.dst = k
-          · subst hkd
-            rw [hd] at hk
-            injection hk with hk
-            subst hk
-            exact ⟨_, by simp [hdlt], hgrow⟩
-          · refine ⟨d0, by simp [hkd, hk], ?_⟩
-            exact DocGrows.refl _ _ _
-        · intro k hk
-          simp [Ne.symm hk]
-        · intro h; cases h
-        · intro e he
-          injection he with he
-          subst he
-          refine ⟨rfl, rfl, rfl, ?_, ?_, ?_, ⟨s, r, hs, hf, rfl⟩, ?_, ?_⟩
-          · simp only; rw [hc1]; exact copyTree_erase _ _
-          · intro i hi; simp only at hi ⊢; have := i2 i hi; rw [hnext]; omega
-          · intro i hi; simp only at hi ⊢; have := i3 i hi; rw [hnext]; omega
-          · exact ⟨_, by simp [hdlt], rfl⟩
-          · intro d' hd' i hi hm
-            simp only at hi hd'
-            have := i2 i hi
-            rcases hbelow' d' hd' i hm with h | h <;> omega
+        split
+        · rename_i res d' hfo
+          obtain ⟨e1, e2, e3, e4, ⟨added, ea, _, _, _, eadd⟩, _, e7⟩ :=
+            filter_effect (ctxOf r) d d' w.next (tagFilter white tags) t res hfo
+          have hgrow : DocGrows w.next res.next d d' :=
+            ⟨added, ea, fun x hx => by
+              obtain ⟨p1, p2, p3, p4, p5, _⟩ := eadd x hx; exact ⟨p1, p2, p3, p4, p5⟩⟩
+          have hbelow' : ∀ d0 ∈ w.docs.set op.dst d', ∀ i ∈ idsList d0.nodes,
+              (i < w.next ∨ ((w.next ≤ i ∧ i < res.next) ∧ ∀ j ∈ res.copy.ids, i ≠ j)) := by
+            intro d0 hd0 i hi
+            rcases List.mem_or_eq_of_mem_set hd0 with hm | rfl
+            · exact Or.inl (hb d0 hm i hi)
+            · rw [ea, idsList_append] at hi
+              rcases List.mem_append.mp hi with hi | hi
+              · exact Or.inl (hb d (List.mem_of_getElem? hd) i hi)
+              · obtain ⟨x, hx, hix⟩ := idsList_mem.mp hi
+                obtain ⟨_, _, p3, p4, p5, p6⟩ := eadd x hx
+                rw [ids_of_leaf p3] at hix
+                simp at hix
+                subst hix
+                exact Or.inr ⟨⟨p4, p5⟩, fun j hj e => p6 (e ▸ hj)⟩
+          dsimp only
+          refine ⟨?_, ?_, ?_, ?_, ?_⟩
+          · intro d0 hd0 i hi
+            rcases hbelow' d0 hd0 i hi with h | h
+            · simp only; omega
+            · exact h.1.2
+          · refine ⟨by simp only; omega, by simp, ?_⟩
+            intro k d0 hk
+            by_cases hkd : op.dst = k
+            · subst hkd
+              rw [hd] at hk
+              injection hk with hk
+              subst hk
+              exact ⟨_, by simp [hdlt], hgrow⟩
+            · refine ⟨d0, by simp [hkd, hk], ?_⟩
+              exact DocGrows.refl _ _ _
+          · intro k hk
+            simp [Ne.symm hk]
+          · intro h; cases h
+          · intro e he
+            injection he with he
+            subst he
+            refine ⟨rfl, rfl, rfl, ?_, e2, e3, ⟨s, r, hs, hf, rfl⟩, ?_, ?_⟩
+            · simp only [CopyOp.keep, hfil]; exact e1
+            · exact ⟨_, by simp [hdlt], e4⟩
+            · intro d0 hd0 i hi hm
+              have := e2 i hi
+              rcases hbelow' d0 hd0 i hm with h | h
+              · omega
+              · exact h.2 i hi rfl
+        · exact triv
   · exact triv
 
 /-! ### sequences -/
@@ -217,7 +252,7 @@ theorem run_grows (w : World) (ops : List CopyOp) (hb : w.Below) :
     copy), writes only to such objects, and has the value of its source. -/
 theorem run_events (w : World) (ops : List CopyOp) (hb : w.Below) :
     (∀ e ∈ eventsOf (w.run ops).2, w.next ≤ e.start ∧ e.result.next ≤ (w.run ops).1.next ∧
-      e.result.copy.erase = e.source.erase ∧
+      pruneNode e.op.keep e.source.erase = some e.result.copy.erase ∧
       (∀ i ∈ e.result.copy.ids, e.start ≤ i ∧ i < e.result.next) ∧
       (∀ i ∈ e.result.writes, e.start ≤ i ∧ i < e.result.next)) ∧
     (eventsOf (w.run ops).2).Pairwise (fun a b => a.result.next ≤ b.start) := by
@@ -243,7 +278,7 @@ theorem run_events (w : World) (ops : List CopyOp) (hb : w.Below) :
       · intro e hm
         rcases List.mem_cons.mp hm with rfl | hm
         · refine ⟨by rw [ok.start_eq]; exact Nat.le_refl _, by rw [ok.next_eq]; exact hn,
-            ok.value, ?_, ?_⟩
+            by rw [ok.op_eq]; exact ok.value, ?_, ?_⟩
           · intro i hi; rw [ok.start_eq, ok.next_eq]; exact ok.fresh i hi
           · intro i hi; rw [ok.start_eq, ok.next_eq]; exact ok.writes i hi
         · obtain ⟨p1, p2⟩ := r1 e hm
@@ -313,9 +348,10 @@ theorem run_source_stable (w0 w : World) (ops : List CopyOp) (hb : w.Below)
 theorem run_copy_twice (w : World) (ops : List CopyOp) (hb : w.Below) (a b : CopyEvent)
     (hab : [a, b].Sublist (eventsOf (w.run ops).2))
     (hsrc : a.op.src = b.op.src) (hnode : a.op.node = b.op.node)
+    (hfil : a.op.filter = b.op.filter)
     (hin : ∃ s x, w.docs[a.op.src]? = some s ∧ findRec a.op.node s.nodes = some x) :
     deepEqual a.result.copy.erase b.result.copy.erase = true ∧
-    deepEqual a.source.erase a.result.copy.erase = true ∧
+    (a.op.filter = none → deepEqual a.source.erase a.result.copy.erase = true) ∧
     (∀ i ∈ a.result.copy.ids, i ∉ b.result.copy.ids) := by
   obtain ⟨s, ⟨r, t⟩, hs, hf⟩ := hin
   have ha : a ∈ eventsOf (w.run ops).2 := hab.subset (by simp)
@@ -326,81 +362,19 @@ theorem run_copy_twice (w : World) (ops : List CopyOp) (hb : w.Below) (a b : Cop
   have ev := (run_events w ops hb).1
   have va := (ev a ha).2.2.1
   have vb := (ev b hb').2.2.1
-  refine ⟨by rw [va, vb, sa, sb]; exact deepEqual_refl _, by rw [va]; exact deepEqual_refl _, ?_⟩
-  have hp := (run_disjoint w ops hb).sublist hab
-  simp only [List.pairwise_cons, List.mem_singleton, forall_eq] at hp
-  exact hp.1
-
-/-! ### the pointer index and the families cache -/
-
-theorem lookup_append_one (l : List INode) (i : Nat) (t v p : Str) (ks : List INode) (q : Str) :
-    Doc.lookup (l ++ [.mk i t v p ks]) q = if p == q then some i else Doc.lookup l q := by
-  unfold Doc.lookup
-  simp only [List.reverse_append, List.reverse_cons, List.reverse_nil, List.nil_append,
-    List.cons_append, List.find?_cons, INode.ptr]
-  cases h : p == q <;> simp [INode.id]
-
-theorem addFamily_index (d : DocSt) (id : Nat) (p : Str) :
-    (d.addFamily id p).index = if p.isEmpty then d.index else (p, id) :: d.index := rfl
-
-theorem addFamily_nodes (d : DocSt) (id : Nat) (p : Str) :
-    (d.addFamily id p).nodes = d.nodes ++ [.mk id tagFAM [] p []] := rfl
-
-theorem addFamily_coherent (d : DocSt) (id : Nat) (p : Str) (h : d.coherent) :
-    (d.addFamily id p).coherent := by
-  constructor
-  · intro q hq
-    unfold DocSt.nodeByPointer
-    rw [addFamily_index, addFamily_nodes, lookup_append_one]
-    have hc := h.1 q hq
-    simp only [DocSt.nodeByPointer] at hc
-    split
-    · rename_i hp
-      have : p = [] := List.isEmpty_iff.mp hp
-      subst this
-      have hq' : (([] : Str) == q) = false := by
-        cases q with | nil => exact absurd rfl hq | cons _ _ => rfl
-      simp only [hq', Bool.false_eq_true, if_false]
-      exact hc
-    · cases hpq : p == q
-      · simpa [List.find?_cons, hpq] using hc
-      · simp [List.find?_cons, hpq]
-  · intro l hl
-    simp only [DocSt.addFamily, DocSt.addNode, DocSt.families, INode.tag] at hl
-    simp only [beq_self_eq_true, if_true] at hl
-    injection hl with hl
-    rw [← hl]
-    rfl
-
-theorem addFamilies_coherent (d : DocSt) (nx : Nat) (ps : List Str) (h : d.coherent) :
-    (d.addFamilies nx ps).1.coherent := by
-  induction ps generalizing d nx with
-  | nil => exact h
-  | cons p ps ih => exact ih _ _ (addFamily_coherent d nx p h)
-
-theorem ofRecords_coherent (recs : List INode) : (DocSt.ofRecords recs).coherent := by
-  constructor
-  · intro q hq
-    unfold DocSt.ofRecords DocSt.nodeByPointer Doc.lookup
-    simp only
-    rw [← List.map_reverse, ← List.filter_reverse]
-    generalize recs.reverse = l
-    induction l with
-    | nil => rfl
-    | cons x xs ih =>
-      cases hx : x.ptr.isEmpty
-      · simp only [List.filter_cons, hx, Bool.not_false, if_true, List.map_cons, List.find?_cons]
-        cases hpq : x.ptr == q
-        · exact ih
-        · rfl
-      · have hp : x.ptr = [] := List.isEmpty_iff.mp hx
-        have : (x.ptr == q) = false := by
-          rw [hp]; cases q with | nil => exact absurd rfl hq | cons _ _ => rfl
-        simp only [List.filter_cons, hx, Bool.not_true, Bool.false_eq_true, if_false,
-          List.find?_cons, this]
-        exact ih
-  · intro l hl
-    simp [DocSt.ofRecords] at hl
+  have hk : a.op.keep = b.op.keep := by unfold CopyOp.keep; rw [hfil]
+  rw [sa] at va
+  rw [sb, ← hk, va] at vb
+  injection vb with vb
+  refine ⟨by rw [vb]; exact deepEqual_refl _, ?_, ?_⟩
+  · intro hn
+    have : a.op.keep = fun _ => true := by unfold CopyOp.keep; rw [hn]
+    rw [this, pruneNode_all] at va
+    injection va with va
+    rw [sa, va]; exact deepEqual_refl _
+  · have hp := (run_disjoint w ops hb).sublist hab
+    simp only [List.pairwise_cons, List.mem_singleton, forall_eq] at hp
+    exact hp.1
 
 /-- FULL, every sequence.  Cache coherence of every document is preserved: `NodeByPointer` answers
     what a scan of the record list would (the record stored last under the pointer), and a cached
@@ -419,11 +393,19 @@ theorem run_coherent (w : World) (ops : List CopyOp) (hc : ∀ d ∈ w.docs, d.c
       split at hd
       · exact hc d hd
       · split at hd
-        · exact hc d hd
-        · simp only at hd
-          rcases List.mem_or_eq_of_mem_set hd with hm | rfl
-          · exact hc d hm
-          · exact addFamilies_coherent _ _ _ (hc d0 (List.mem_of_getElem? hd0))
+        · split at hd
+          · exact hc d hd
+          · simp only at hd
+            rcases List.mem_or_eq_of_mem_set hd with hm | rfl
+            · exact hc d hm
+            · exact addFamilies_coherent _ _ _ (hc d0 (List.mem_of_getElem? hd0))
+        · split at hd
+          · rename_i res d' hfo
+            simp only at hd
+            rcases List.mem_or_eq_of_mem_set hd with hm | rfl
+            · exact hc d hm
+            · exact (filter_effect _ _ _ _ _ _ _ hfo).2.2.2.2.2.1 (hc d0 (List.mem_of_getElem? hd0))
+          · exact hc d hd
     · exact hc d hd
 
 /-! ### the family of the role nodes of a copy -/
